@@ -133,6 +133,22 @@ func c15(r *core.Report) {
 				for _, di := range core.Calls(fn, func(ci ssa.CallInstruction) bool { return isDeliver(ci.Common()) }) {
 					recv := di.Common().Args[0]
 					f, base := core.FieldOfAddr(recv)
+					if f == nil {
+						// the hub read into a local first (hub := s.tellHub; hub.Deliver(...)), or a pointer field
+						v := recv
+						if a, isA := v.(*ssa.Alloc); isA {
+							var stored []ssa.Value
+							for _, ref := range *a.Referrers() {
+								if st, ok := ref.(*ssa.Store); ok && st.Addr == ssa.Value(a) {
+									stored = append(stored, st.Val)
+								}
+							}
+							if len(stored) == 1 {
+								v = stored[0]
+							}
+						}
+						f, base = core.FieldRead(core.Through(v))
+					}
 					okHub := (core.SameField(f, tellHubF) || core.SameField(f, askHubF))
 					okBase := false
 					if base != nil {
